@@ -129,6 +129,10 @@ func searches(prop, tier string) []raftmc.Search {
 		mx.MaxProp, mx.MaxUnreach = 1, 1
 		add(mx, "lagging", d(5, 8))
 		add(mx, "leader2", d(5, 8))
+		// a snapshot and the append that follows it stepped together: one Ready carries both
+		sp := raftmc.Config{Name: "snap+append", N: 3, PreVote: true, CheckQuorum: true, Storage: "mem", UseTick: true, EarlySnapReport: true}
+		sp.MaxPair, sp.MaxProp = 1, 1
+		add(sp, "snap+append-in-flight", d(4, 6))
 		// divergent logs: elections by plain timeouts, conflicts and truncation
 		dv := raftmc.Config{Name: "divergent", N: 3, Storage: "mem", UseTimeout: true, MaxSizeOne: true, MaxTerm: 6}
 		dv.MaxProp = 1
